@@ -18,6 +18,7 @@ pub fn max_buffer_len() -> usize {
 pub enum Reads {
     Sizes(Vec<usize>),
     Drain(usize), // bytes(): io::copy; the size is only the model's schedule
+    Text(usize),  // text_utf8(): read_to_end + lossy UTF-8
 }
 
 #[derive(Clone, Debug)]
@@ -34,6 +35,7 @@ impl RespCase {
             Reads::Sizes(ns) if ns.is_empty() => "-".to_string(),
             Reads::Sizes(ns) => ns.iter().map(|n| n.to_string()).collect::<Vec<_>>().join(","),
             Reads::Drain(sz) => format!("B{}", sz),
+            Reads::Text(sz) => format!("T{}", sz),
         };
         format!(
             "resp {} {} {} {} {} {}",
@@ -188,7 +190,7 @@ pub fn run_resp(case: &RespCase) -> RespOut {
     let log = install_script(case.segs.clone());
     let max_read = match &case.reads {
         Reads::Sizes(ns) => ns.iter().copied().max().unwrap_or(0),
-        Reads::Drain(_) => 0,
+        Reads::Drain(_) | Reads::Text(_) => 0,
     };
     let mut buf = vec![0u8; max_read];
     let base = crate::alloc::start();
@@ -241,6 +243,17 @@ pub fn run_resp(case: &RespCase) -> RespOut {
                             break;
                         }
                     }
+                }
+                Reads::Text(_) => {
+                    let r = catch_unwind(AssertUnwindSafe(move || resp.text_utf8()));
+                    out.events.push(match r {
+                        Err(_) => Ev::Panic,
+                        Ok(Ok(s)) => Ev::Ok(s.into_bytes()),
+                        Ok(Err(e)) => match classify_atto(&e) {
+                            Classified::Blocked => Ev::Blocked,
+                            Classified::Err(k) => Ev::Err(k),
+                        },
+                    });
                 }
                 Reads::Drain(_) => {
                     let r = catch_unwind(AssertUnwindSafe(move || resp.bytes()));
